@@ -550,12 +550,12 @@ def core_ops():
     # EINVAL before the buffer is looked at) must still SET *ndropped (the harness poisons it before every
     # call); directly behind a write that really dropped bytes (what a caller re-using its variable sees);
     # and every writing call with NULL for the out-parameter (`nullnd 1`: "if not NULL")
-    ops += [["write -"]] + [["refused %d" % k] for k in range(6)]
+    ops += [["write -"]] + [["refused %d" % k] for k in range(7)]
     ops += [["write 78797a7b7c7d", z] for z in ("write -", "wfd 0 7879 0", "wfd -2 7879 0", "wfd 3 - 1", "refused 0",
-                                                 "refused 1", "refused 2", "refused 3", "refused 4")]
+                                                 "refused 1", "refused 2", "refused 3", "refused 4", "refused 6")]
     ops += [["nullnd 1", o, "nullnd 0"] for o in ("write -", "write 78790a7a770a", "wline -", "wline 7879797979",
                                                   "wfd -1 780a797a7b 0", "wfd 0 7879 0", "wfd -2 7879 0", "wfd 3 - 1",
-                                                  "refused 0", "refused 1", "refused 2", "refused 3", "refused 4")]
+                                                  "refused 0", "refused 1", "refused 2", "refused 3", "refused 4", "refused 6")]
     # interrupted system calls at every chunk of the descriptor calls: must be invisible
     ops += [["eintr 1", "wfd -1 780a79 0"], ["eintr 3", "wfd 5 780a797a7b 1"], ["eintr 2", "wfd 5 78 0"],
             ["eintr 1", "rfd -1 9"], ["eintr 3", "rfd 9 2"], ["eintr 2", "pfd -1 9"], ["eintr 2", "yfd -1 9"],
